@@ -1,4 +1,5 @@
 import PPLV.Solver.PIPCoreProofsMain7
+import PPLV.Solver.PIPCoreProofsMainR3
 
 /-!
 # C07 stage 2 — the core of the PIP solver (`PIP_Tree.cc`) inside the model
@@ -25,12 +26,13 @@ What is proved (for all tableaux / rows / contexts, nothing bounded):
 * `split_partitions_context` — the two children of a decision node partition the integer valuations;
 * `cut_step_preserves` — a Gomory cut (with its new artificial parameter and the two context rows) keeps the
   integer solutions, the signs, the lexicographic invariant and integrality;
-* `solve_partial_correct_partial` — END TO END, every fuel, all three cutting and both pivot-row strategies:
-  whenever the modelled `solve` returns a tree and that tree, evaluated with the public semantics `Tree.eval`
-  at a non-negative integer parameter valuation of the initial context, yields a point, that point is THE
-  lexicographic minimum of the problem the root tableau describes (oracle contract as hypothesis).
-  The other half — "bottom only where the problem is infeasible" — is FALSE for the code as it is
-  (`solve_bottom_fails`, open finding KF-C07-12).
+* `solve_partial_correct` — END TO END, every fuel, all three cutting and both pivot-row strategies: whenever the
+  modelled `solve` returns a tree, then at every non-negative integer parameter valuation of the initial context
+  a point of the public semantics `Tree.eval` is THE lexicographic minimum of the problem the root tableau
+  describes, and bottom means that the problem has no non-negative integer point there (oracle contract as
+  hypothesis).  `solve` is the code WITH the repair of finding KF-C07-12 (commit deb2fdf); for the code before
+  the repair (`solveAsWritten`) the point half holds (`solve_point_correct_before_fix`) and the bottom half
+  fails (`solve_bottom_before_fix_fails`).
 -/
 namespace C07
 open PPLV.PIPCore
@@ -219,38 +221,84 @@ theorem solution_exit_correct {nd : SolNode} {q : List Int} (hwf : WF nd) (hlp :
     (hsi : solutionIntegral nd = true) (hint : IntInv nd q) : IsLexMin nd q (nd.point q) :=
   final_node_correct hwf hlp hq hsign hpz hsi hint
 
-/-- **`solve_partial_correct`, the half that holds** (partial correctness, every fuel, every strategy).
+/-- **the code before the repair of KF-C07-12: the half that holds** (every fuel, every strategy).
     `RootOK`: a fresh root as `update_tableau` builds it (denominator 1, problem variables = column variables,
     signs = `row_sign` or UNKNOWN, no big parameter) with the initial context; `CCContract cc`: the decision
     contract of `compatibility_check`.  If the model returns a tree `r` and the public semantics of that tree
     at a non-negative integer valuation `θ` of the initial context is a point `x`, then `x` lists the values of
     the problem variables of a feasible valuation that is lexicographically ≤ every feasible valuation.
 
-    `_partial`: what is missing for the full statement is (i) "`Tree.eval` = bottom ⇒ the problem is infeasible
-    at `θ`" — false for the code as it is, see `solve_bottom_fails`; (ii) that `Tree.eval` never answers
-    `scopeError` / `nonIntegral` on these trees (the converse bridge `resToTree_eval_eq` exists under
-    `WellFormedC`, which is not derived from the solver here); (iii) termination (fuel). -/
-theorem solve_partial_correct_partial {cc : Mat → Option Bool} (hcc : CCContract cc) (ctl : Ctl)
+    The bottom half is false for that code: `solve_bottom_before_fix_fails`. -/
+theorem solve_point_correct_before_fix {cc : Mat → Option Bool} (hcc : CCContract cc) (ctl : Ctl)
     {cfc : Bool} {fuel : Nat} {root : SolNode} {ctx0 : Mat} (h : RootOK root ctx0) {r : Option CTree}
-    (hs : solve cc ctl cfc fuel root ctx0 = .done r) {θ : List Int} (hlen : θ.length + 1 = root.tab.nt)
+    (hs : solveAsWritten cc ctl cfc fuel root ctx0 = .done r) {θ : List Int} (hlen : θ.length + 1 = root.tab.nt)
     (hnn : ∀ a ∈ θ, 0 ≤ a) (hsat : CtxSat ctx0 (1 :: θ)) {x : List Int}
     (hx : (resToTree r).eval θ = .point x) : IsLexMin root (1 :: θ) x :=
-  solve_sound_eval hcc ctl h hs hlen hnn hsat hx
+  solveAsWritten_sound_eval hcc ctl h hs hlen hnn hsat hx
 
 -- non-vacuity: the contract is satisfiable, and on the root of `x ≥ 1` the model returns `x = 1`
 example : CCContract ccClassical := ccClassical_contract
 example : IsLexMin exRootX [1] [1] := by
   obtain ⟨r, hr, he⟩ := exRootX_run ccClassical
-  exact solve_partial_correct_partial ccClassical_contract {} exRootX_ok hr (θ := []) rfl
+  exact solve_point_correct_before_fix ccClassical_contract {} exRootX_ok hr (θ := []) rfl
     (by intro a ha; simp at ha) (by intro r hr; simp at hr) he
 
-/-- **the bottom half of `solve_partial_correct` fails** (open finding KF-C07-12).  `kfRoot` is the root
+/-- **before the repair the bottom half failed** (finding KF-C07-12, fixed by commit deb2fdf).  `kfRoot` is the root
     tableau, journalled from the real library, of `{4A + C + E = 3, C - E ≥ 3, 2B + 2C - 3D = 3,
     B + 2C - 2E + 3 ≥ 0}` with parameters `D, E`; under `PIVOT_ROW_STRATEGY_MAX_COLUMN`, with the modelled
-    `compatibility_check` as oracle, the model returns — like the real `PIP_Problem::solve`, tree for tree — a
-    tree that is bottom at `(D, E) = (1, 0)`, where `(A, B, C) = (0, 0, 3)` is feasible. -/
-theorem solve_bottom_fails :
+    `compatibility_check` as oracle, `solveAsWritten` returns — like the real `PIP_Problem::solve` did, tree for
+    tree — a tree that is bottom at `(D, E) = (1, 0)`, where `(A, B, C) = (0, 0, 3)` is feasible. -/
+theorem solve_bottom_before_fix_fails :
     kfTree.eval [1, 0] = .bottom ∧ Feasible kfRoot kfVal [1, 1, 0] ∧ (List.range 3).map kfVal = [0, 0, 3] :=
   ⟨kf_bottom, kf_feasible, by decide⟩
+
+/-! ### 6. the code as it is (with the repair of KF-C07-12): both halves
+
+Before concluding "No positive pivot: Solution = _|_" from a cached NEGATIVE sign the code asks
+`compatibility_check(ctx, t_i)`; if `t_i(z) ≥ 0` is compatible with the context the sign is reset to MIXED and
+the loop starts over (rows that mention the big parameter are left alone). -/
+
+/-- **`solve_partial_correct`** (partial correctness, every fuel, every strategy; the decision contract of
+    `compatibility_check` is a hypothesis).  `RootOK`: a fresh root as `update_tableau` builds it (denominator 1,
+    problem variables = column variables, signs = `row_sign` or UNKNOWN, no big parameter) with the initial
+    context.  If the model returns a tree `r`, then at every non-negative integer valuation `θ` of the initial
+    context: a point of `Tree.eval` is the lexicographic minimum of the feasible region, and bottom means that the
+    region is empty.  (Not part of the statement: that `Tree.eval` never answers `scopeError` / `nonIntegral` on
+    these trees — the converse bridge `resToTree_eval_eq` exists under `WellFormedC` — and termination.) -/
+theorem solve_partial_correct {cc : Mat → Option Bool} (hcc : CCContract cc) (ctl : Ctl)
+    {cfc : Bool} {fuel : Nat} {root : SolNode} {ctx0 : Mat} (h : RootOK root ctx0) {r : Option CTree}
+    (hs : solve cc ctl cfc fuel root ctx0 = .done r) {θ : List Int} (hlen : θ.length + 1 = root.tab.nt)
+    (hnn : ∀ a ∈ θ, 0 ≤ a) (hsat : CtxSat ctx0 (1 :: θ)) :
+    (∀ x, (resToTree r).eval θ = .point x → IsLexMin root (1 :: θ) x) ∧
+    ((resToTree r).eval θ = .bottom → Infeasible root (1 :: θ)) :=
+  ⟨fun _ hx => solve_point_eval hcc ctl h hs hlen hnn hsat hx,
+   fun hx => solve_bottom_eval hcc ctl h hs hlen hnn hsat hx⟩
+
+/-- the bottom half on its own -/
+theorem solve_bottom_correct {cc : Mat → Option Bool} (hcc : CCContract cc) (ctl : Ctl)
+    {cfc : Bool} {fuel : Nat} {root : SolNode} {ctx0 : Mat} (h : RootOK root ctx0) {r : Option CTree}
+    (hs : solve cc ctl cfc fuel root ctx0 = .done r) {θ : List Int} (hlen : θ.length + 1 = root.tab.nt)
+    (hnn : ∀ a ∈ θ, 0 ≤ a) (hsat : CtxSat ctx0 (1 :: θ))
+    (hx : (resToTree r).eval θ = .bottom) : Infeasible root (1 :: θ) :=
+  (solve_partial_correct hcc ctl h hs hlen hnn hsat).2 hx
+
+/-- the same over the parameter columns (`evalRes` = the tree evaluated on rows; `Claim`: a point is the
+    lexicographic minimum, bottom is infeasibility) -/
+theorem solve_partial_correct_columns {cc : Mat → Option Bool} (hcc : CCContract cc) (ctl : Ctl)
+    {cfc : Bool} {fuel : Nat} {root : SolNode} {ctx0 : Mat} (h : RootOK root ctx0) {r : Option CTree}
+    (hs : solve cc ctl cfc fuel root ctx0 = .done r) {q : List Int} (hq : ParamVec root.tab.nt q)
+    (hsat : CtxSat ctx0 q) : Claim root q (evalRes r q) := solve_correct hcc ctl h hs hq hsat
+
+-- non-vacuity: the contract is satisfiable; on the root of `x ≥ 1` the model returns `x = 1`; on the witness of
+-- KF-C07-12 the code as it is returns the lexicographic minimum (0, 0, 3)
+example : ∃ r, solve ccClassical {} false 5 exRootX [] = .done r ∧ (resToTree r).eval [] = .point [1] :=
+  ⟨_, rfl, by decide⟩
+example : IsLexMin exRootX [1] [1] := by
+  have hrun : ∃ r, solve ccClassical {} false 5 exRootX [] = .done r ∧ (resToTree r).eval [] = .point [1] :=
+    ⟨_, rfl, by decide⟩
+  obtain ⟨r, hr, he⟩ := hrun
+  exact (solve_partial_correct ccClassical_contract {} exRootX_ok hr (θ := []) rfl
+    (by intro a ha; simp at ha) (by intro r hr; simp at hr)).1 [1] he
+example : kfTreeR.eval [1, 0] = .point [0, 0, 3] := kf_repaired_point
 
 end C07
